@@ -128,3 +128,69 @@ func VerifC06CatchUp() {
 	}
 	rt.Reach("end")
 }
+
+// VerifC06WorkerResume: what the background worker rebuilds from the stored wallet statuses when the process
+// starts again (the task queue itself is not persisted): the real worker() start-up pass over three wallets with
+// arbitrary statuses queues exactly one removal task for every wallet marked for removal, exactly one import
+// task for every wallet whose rescan has not finished, and nothing for a finished wallet. (quit is closed, so
+// the worker returns right after the pass.)
+func VerifC06WorkerResume() {
+	st := txmgr.VerifNewStoresWithKeystoreManager([]byte("DJr6BomK"))
+	w := &WalletManager{config: &config.Config{Wallet: config.NewDefWalletConfig()}, db: st.DB, chainParams: config.ChainParams,
+		ksmgr: st.Ks, bucketMeta: st.Meta, utxoStore: st.Utxo, txStore: st.Tx, syncStore: st.Sync}
+	ids := []string{"ac10aaaaaaaaaaaaaaaaaaaaaaaaaaaaaaaaaaaaaa", "ac10bbbbbbbbbbbbbbbbbbbbbbbbbbbbbbbbbbbbbb", "ac10cccccccccccccccccccccccccccccccccccccc"}
+	var wantImport, wantRemove [3]bool
+	for i, id := range ids {
+		v := make([]byte, 9)
+		switch rt.NondetLen(0, 2) {
+		case 0: // finished
+			binary.BigEndian.PutUint64(v, txmgr.WalletSyncedDone)
+		case 1: // rescan in progress at an arbitrary cursor
+			c := rt.NondetU64()
+			rt.Assume(c != txmgr.WalletSyncedDone)
+			binary.BigEndian.PutUint64(v, c)
+			wantImport[i] = true
+		case 2: // finished and marked for removal
+			binary.BigEndian.PutUint64(v, txmgr.WalletSyncedDone)
+			v[8] = txmgr.WalletFlagsRemove
+			wantRemove[i] = true
+		}
+		st.WS.Set([]byte(id), v)
+	}
+	st.VerifSetSyncedChain([]txmgr.BlockMeta{{Height: 5}})
+	h, err := NewNtfnsHandler(w)
+	rt.Assert(err == nil && h != nil && h.taskChan != nil, "handler-created")
+	if err != nil || h == nil {
+		rt.Reach("end")
+		return
+	}
+	close(h.quit)
+	h.quitWg.Add(1)
+	worker(h)
+	var gotImport, gotRemove [3]int
+	n := len(h.taskChan.C)
+	for k := 0; k < n; k++ {
+		t := <-h.taskChan.C
+		for i, id := range ids {
+			if t.walletId == id {
+				if t.taskType == WalletTaskImport {
+					gotImport[i]++
+				} else if t.taskType == WalletTaskRemove {
+					gotRemove[i]++
+				}
+			}
+		}
+	}
+	for i := range ids {
+		wi, wr := 0, 0
+		if wantImport[i] {
+			wi = 1
+		}
+		if wantRemove[i] {
+			wr = 1
+		}
+		rt.Assert(gotImport[i] == wi, "unfinished-rescan-resumed-exactly-once")
+		rt.Assert(gotRemove[i] == wr, "pending-removal-resumed-exactly-once")
+	}
+	rt.Reach("end")
+}
